@@ -1355,60 +1355,71 @@ def run(chk):
             tree = f"(.bin .mul (.call {pyfrag.lean_str(f)} [{', '.join([arg] * int(n))}]) (.num \"3.0\"))"
             wit_thms.append(f"theorem witness_{i} : (parse (gen cfg false {tree})).map sexp = some {pyfrag.lean_str(w['parsed'])} ∧\n"
                             f"    sexp (trans cfg xmilePrec false {tree}) ≠ {pyfrag.lean_str(w['parsed'])} := by decide +kernel\n#print axioms witness_{i}\n")
-    if good:
-        ob = ("theorem cfg_good : good cfg xmilePrec = true := by decide +kernel\n"
-              "theorem shapes_ok : shapesOK cfg = true := by decide +kernel\n"
-              "theorem extended_ok : (tableOK 1 extended && extended.all primOK) = true := by decide +kernel\n"
-              "theorem holds : C03_full cfg xmilePrec := C03_full_of_good cfg xmilePrec xmile_prec_agrees xmile_unamb cfg_good shapes_ok\n"
-              "#print axioms holds\n")
-    else:
-        ob = "theorem cfg_not_good : good cfg xmilePrec = false := by decide +kernel\n#print axioms cfg_not_good\n"
-        if any("/" in k and not k.startswith("op") and k != "not/1" for k in bad):
-            ob += "theorem fns_not_ok : fnsOK cfg = false := by decide +kernel\n"
-        ob += "".join(wit_thms)
-        if not facts["unknownBuiltinRaises"]:
-            ob += ("theorem violated : ¬ C03_full cfg xmilePrec := C03_witness_unknown cfg xmilePrec (by decide) (by decide +kernel)\n"
-                   "#print axioms violated\n")
-        if not facts["helperKeysNormalise"]:
-            ob += ("theorem violated_helper_keys : ¬ C03_full cfg xmilePrec := C03_witness_helper_keys cfg xmilePrec (by decide)\n"
-                   "#print axioms violated_helper_keys\n")
-    # wave 5: the literal-sign fact on the probed generator: a signed literal is printed flat (`-2.0`), so `^(-2, 2)` is emitted as
-    # `-2.0 ** 2.0`, which reads -(2 ** 2) like the XMILE source `-2 ^ 2` (theorem signed_base_pow); `(-2.0)` would not
-    lit_flat = facts["negLit"] == ["O-", "N2.0"] and facts["negLitPow"] == ["O-", "N2.0", "O**", "N2.0"]
-    chk.notes["probe"]["negLit"] = " ".join(facts["negLit"]); chk.notes["probe"]["negLitPow"] = " ".join(facts["negLitPow"])
-    litdefs = f"def negLit : List Tok := {lean_toks(facts['negLit'])}\ndef negLitPow : List Tok := {lean_toks(facts['negLitPow'])}\n"
-    if lit_flat:
-        ob += (litdefs + "theorem neg_literal_flat : negLit = gen cfg false (.nnum \"2.0\") ∧ negLitPow = gen cfg false (.bin .pow (.nnum \"2.0\") (.num \"2.0\")) ∧\n"
-               "    (parse negLitPow).map sexp = some \"(neg (** (num 2.0) (num 2.0)))\" := by decide +kernel\n#print axioms neg_literal_flat\n")
+    def assemble(good):
         if good:
-            ob += ("theorem ops_ok : opOK cfg xmilePrec = true := by decide +kernel\n"
-                   "example := signed_base_pow cfg ops_ok \"2.0\" \"2.0\" false\n")
-    else:
-        ob += (litdefs + "theorem neg_literal_not_flat : ¬ (negLit = gen cfg false (.nnum \"2.0\") ∧ negLitPow = gen cfg false (.bin .pow (.nnum \"2.0\") (.num \"2.0\"))) := by decide +kernel\n"
-               "#print axioms neg_literal_not_flat\n#print axioms signed_base_pow_paren_wrong\n")
-    # wave 6: every equation owns its tree object (probe: identity of the identifier node of `rate * 2` in root / Plant A / Plant B)
-    try:
-        own_rows = probe_tree_ownership()
-    except BaseException as ex:
-        own_rows = [("PROBE-FAILED " + type(ex).__name__, 0, ""), ("PROBE-FAILED", 0, "")]
-    owned = len({c for _, c, _ in own_rows}) == len(own_rows) and len(own_rows) >= 4
-    chk.notes["probe"]["tree_ownership"] = own_rows
-    eqn_rows = ", ".join(f"⟨{pyfrag.lean_str(mn)}, {c}, .bin .mul (.id \"rate\") (.num \"2.0\")⟩" for mn, c, _ in own_rows)
-    ob += f"def probedEqns : List Eqn := [{eqn_rows}]\n"
-    rr_ok = ROOT_REF_PROBE == ["rate", "plantA.rate"]
-    chk.notes["probe"]["root_reference"] = list(ROOT_REF_PROBE)
-    ob += "def probedRootRef : List String := [" + ", ".join(pyfrag.lean_str(x) for x in ROOT_REF_PROBE) + "]\n"
-    ob += ("theorem root_ref_resolved : probedRootRef = ids (makeAbs \"plantA\" (.bin .add (.id \".rate\") (.id \"rate\"))) := by decide +kernel\n#print axioms root_ref_resolved\n" if rr_ok else
-           "theorem root_ref_not_resolved : probedRootRef ≠ ids (makeAbs \"plantA\" (.bin .add (.id \".rate\") (.id \"rate\"))) := by decide +kernel\n#print axioms root_ref_not_resolved\n#print axioms root_ref_witness\n")
-    if owned:
-        ob += ("theorem trees_owned : ownedOK probedEqns = true := by decide +kernel\n#print axioms trees_owned\n"
-               "example := owned_resolution probedEqns trees_owned\n")
-    else:
-        ob += ("theorem trees_shared : ownedOK probedEqns = false := by decide +kernel\n#print axioms trees_shared\n#print axioms shared_tree_witness\n")
-    gen = ("import Bptk.Props.C03\nimport Bptk.Gen.C03Cfg\n/-! GENERATED on every run. -/\nnamespace Bptk.C03.Gen\nopen Bptk.Py Bptk.C03\n"
-           + ob + "end Bptk.C03.Gen\n")
+            ob = ("theorem cfg_good : good cfg xmilePrec = true := by decide +kernel\n"
+                  "theorem shapes_ok : shapesOK cfg = true := by decide +kernel\n"
+                  "theorem extended_ok : (tableOK 1 extended && extended.all primOK) = true := by decide +kernel\n"
+                  "theorem holds : C03_full cfg xmilePrec := C03_full_of_good cfg xmilePrec xmile_prec_agrees xmile_unamb cfg_good shapes_ok\n"
+                  "#print axioms holds\n")
+        else:
+            ob = "theorem cfg_not_good : good cfg xmilePrec = false := by decide +kernel\n#print axioms cfg_not_good\n"
+            if any("/" in k and not k.startswith("op") and k != "not/1" for k in bad):
+                ob += "theorem fns_not_ok : fnsOK cfg = false := by decide +kernel\n"
+            ob += "".join(wit_thms)
+            if not facts["unknownBuiltinRaises"]:
+                ob += ("theorem violated : ¬ C03_full cfg xmilePrec := C03_witness_unknown cfg xmilePrec (by decide) (by decide +kernel)\n"
+                       "#print axioms violated\n")
+            if not facts["helperKeysNormalise"]:
+                ob += ("theorem violated_helper_keys : ¬ C03_full cfg xmilePrec := C03_witness_helper_keys cfg xmilePrec (by decide)\n"
+                       "#print axioms violated_helper_keys\n")
+        # wave 5: the literal-sign fact on the probed generator: a signed literal is printed flat (`-2.0`), so `^(-2, 2)` is emitted as
+        # `-2.0 ** 2.0`, which reads -(2 ** 2) like the XMILE source `-2 ^ 2` (theorem signed_base_pow); `(-2.0)` would not
+        lit_flat = facts["negLit"] == ["O-", "N2.0"] and facts["negLitPow"] == ["O-", "N2.0", "O**", "N2.0"]
+        chk.notes["probe"]["negLit"] = " ".join(facts["negLit"]); chk.notes["probe"]["negLitPow"] = " ".join(facts["negLitPow"])
+        litdefs = f"def negLit : List Tok := {lean_toks(facts['negLit'])}\ndef negLitPow : List Tok := {lean_toks(facts['negLitPow'])}\n"
+        if lit_flat:
+            ob += (litdefs + "theorem neg_literal_flat : negLit = gen cfg false (.nnum \"2.0\") ∧ negLitPow = gen cfg false (.bin .pow (.nnum \"2.0\") (.num \"2.0\")) ∧\n"
+                   "    (parse negLitPow).map sexp = some \"(neg (** (num 2.0) (num 2.0)))\" := by decide +kernel\n#print axioms neg_literal_flat\n")
+            if good:
+                ob += ("theorem ops_ok : opOK cfg xmilePrec = true := by decide +kernel\n"
+                       "example := signed_base_pow cfg ops_ok \"2.0\" \"2.0\" false\n")
+        else:
+            ob += (litdefs + "theorem neg_literal_not_flat : ¬ (negLit = gen cfg false (.nnum \"2.0\") ∧ negLitPow = gen cfg false (.bin .pow (.nnum \"2.0\") (.num \"2.0\"))) := by decide +kernel\n"
+                   "#print axioms neg_literal_not_flat\n#print axioms signed_base_pow_paren_wrong\n")
+        # wave 6: every equation owns its tree object (probe: identity of the identifier node of `rate * 2` in root / Plant A / Plant B)
+        try:
+            own_rows = probe_tree_ownership()
+        except BaseException as ex:
+            own_rows = [("PROBE-FAILED " + type(ex).__name__, 0, ""), ("PROBE-FAILED", 0, "")]
+        owned = len({c for _, c, _ in own_rows}) == len(own_rows) and len(own_rows) >= 4
+        chk.notes["probe"]["tree_ownership"] = own_rows
+        eqn_rows = ", ".join(f"⟨{pyfrag.lean_str(mn)}, {c}, .bin .mul (.id \"rate\") (.num \"2.0\")⟩" for mn, c, _ in own_rows)
+        ob += f"def probedEqns : List Eqn := [{eqn_rows}]\n"
+        rr_ok = ROOT_REF_PROBE == ["rate", "plantA.rate"]
+        chk.notes["probe"]["root_reference"] = list(ROOT_REF_PROBE)
+        ob += "def probedRootRef : List String := [" + ", ".join(pyfrag.lean_str(x) for x in ROOT_REF_PROBE) + "]\n"
+        ob += ("theorem root_ref_resolved : probedRootRef = ids (makeAbs \"plantA\" (.bin .add (.id \".rate\") (.id \"rate\"))) := by decide +kernel\n#print axioms root_ref_resolved\n" if rr_ok else
+               "theorem root_ref_not_resolved : probedRootRef ≠ ids (makeAbs \"plantA\" (.bin .add (.id \".rate\") (.id \"rate\"))) := by decide +kernel\n#print axioms root_ref_not_resolved\n#print axioms root_ref_witness\n")
+        if owned:
+            ob += ("theorem trees_owned : ownedOK probedEqns = true := by decide +kernel\n#print axioms trees_owned\n"
+                   "example := owned_resolution probedEqns trees_owned\n")
+        else:
+            ob += ("theorem trees_shared : ownedOK probedEqns = false := by decide +kernel\n#print axioms trees_shared\n#print axioms shared_tree_witness\n")
+        gen = ("import Bptk.Props.C03\nimport Bptk.Gen.C03Cfg\n/-! GENERATED on every run. -/\nnamespace Bptk.C03.Gen\nopen Bptk.Py Bptk.C03\n"
+               + ob + "end Bptk.C03.Gen\n")
+        return gen, (lit_flat, owned, own_rows, rr_ok)
+
+    gen, (lit_flat, owned, own_rows, rr_ok) = assemble(good)
     ok, why = chk.prove(gen, extra_sources=["Bptk/Gen/C03Cfg.lean", "Bptk/Proofs/PyFrag.lean", "Bptk/Proofs/PySound.lean", "Bptk/Proofs/PyDet.lean",
                                               "Bptk/Core/PyFrag.lean"])
+    if not ok and good:
+        # the templates look fine one by one but `good cfg` (intended shapes / vocabulary) does not hold: state that instead
+        ok2, why2 = chk.prove(assemble(False)[0], extra_sources=["Bptk/Gen/C03Cfg.lean", "Bptk/Proofs/PyFrag.lean", "Bptk/Proofs/PySound.lean",
+                                                             "Bptk/Proofs/PyDet.lean", "Bptk/Core/PyFrag.lean"])
+        if ok2:
+            good, ok, why = False, True, ""
+            bad = {"good cfg xmilePrec": "false (kernel): a template no longer has its intended shape or the vocabulary is incomplete — " + why2}
     chk.cov["trusted_base"] = [
         "Lean 4.33 kernel; axioms ⊆ {propext, Classical.choice, Quot.sound}; `decide +kernel` for the per-run obligations on the probed configuration",
         "A1 grammar of the Python fragment (CPython binding powers) — every emitted text is also parsed by ast.parse and compared",
